@@ -98,7 +98,7 @@ def set_single_configs(tier):
     for prop in ['H', 'h', 'Hnet', 'S']:
         for ph in phases:
             for fail in [0, 1]:
-                for mode in (['pos+maybe'] if tier == 'quick' else ['pos+maybe', 'pos+pos']):
+                for mode in (['pos', 'pos+maybe'] if tier == 'quick' else ['pos+maybe', 'pos+pos']):
                     for pkg in (['A'] if tier == 'quick' else ['A', 'A3']):
                         out.append({'name': f'prop={prop};phase={ph};fail={fail};flows={mode};pkg={pkg}', 'prop': prop,
                                     'phase': ph, 'fail': fail, 'mode': mode, 'pkg': pkg})
